@@ -432,7 +432,7 @@ fn accumulation(rng: &mut Rng, rep: &mut Report, id: (u64, u64), verbose: bool) 
     let depth = rng.range(1, 40);
     let form = parse_forms(&format!("(+ 1 (deepa {} (lambda () (FAIL))))", depth));
     let form = subst(&form[0], &gen::list(vec![gen::list(vec![gen::sym("lambda"), Cell::Nil, fail.clone()])]));
-    let measure = |k: usize| -> (usize, usize, usize, usize) {
+    let measure = |k: usize| -> (usize, usize, usize, usize, usize) {
         let mut m = MwVm::new();
         for d in parse_forms("(define (deepa n th) (if (= n 0) (th) (+ 1 (deepa (- n 1) th))))") {
             run_form(&mut m, &d);
@@ -440,6 +440,8 @@ fn accumulation(rng: &mut Rng, rep: &mut Report, id: (u64, u64), verbose: bool) 
         for _ in 0..k {
             run_form(&mut m, &form);
         }
+        // the heap must not have grown with the number of failures (nothing but failures ran)
+        let capacity = m.vm.verif_stats().heap_capacity;
         // one successful evaluation, then a collection
         run_form(&mut m, &gen::call("+", vec![gen::int(1), gen::int(2)]));
         m.vm.verif_force_gc();
@@ -448,7 +450,7 @@ fn accumulation(rng: &mut Rng, rep: &mut Report, id: (u64, u64), verbose: bool) 
             run_form(&mut m, &form);
             trace_of(&m).map(|t| t.len()).unwrap_or(0)
         };
-        (s.stack_capacity, s.heap_used, s.sp, frames)
+        (s.stack_capacity, s.heap_used, s.sp, frames, capacity)
     };
     let small = measure(10);
     let large = measure(1000);
@@ -457,7 +459,9 @@ fn accumulation(rng: &mut Rng, rep: &mut Report, id: (u64, u64), verbose: bool) 
         println!("k=10 -> {:?}   k=1000 -> {:?}", small, large);
     }
     let wit = Json::obj().set("form", format!("{:#}", form)).set("k10", format!("{:?}", small)).set("k1000", format!("{:?}", large));
-    if large.0 > small.0 {
+    if large.4 > small.4 {
+        rep.violation("accumulates:heap-capacity", format!("heap capacity {} cells after 10 failures, {} after 1000 failures of {:#} (nothing else was evaluated)", small.4, large.4, form), wit.clone(), id);
+    } else if large.0 > small.0 {
         rep.violation("accumulates:stack-capacity", format!("stack capacity {} after 10 failures, {} after 1000 failures of {:#}", small.0, large.0, form), wit.clone(), id);
     } else if large.2 != small.2 {
         rep.violation("accumulates:stack-pointer", format!("sp {} after 10 failures, {} after 1000", small.2, large.2), wit.clone(), id);
